@@ -490,6 +490,37 @@ def run_cli_slice(arg):
         shutil.rmtree(out, ignore_errors=True)
 
 
+def thermal_slot_case(ncool):
+    """the temperature is a slot like the species: the python constants module must say so exactly when the C macros
+    do (NEQUATIONS = NSPECIES + 1, IDX_TGAS = NSPECIES), for no / one / two / three thermal processes and every back-end"""
+    from ..harness.render import render, reset_globals, quiet
+
+    reset_globals()
+    from naunet.network import Network
+    from naunet.reactions.reaction import Reaction
+    from naunet.reactiontype import ReactionType
+
+    cooling = ["CIC_HI", "RC_HII", "CEC_HI"][:ncool]
+    viols = []
+    n = 0
+    with quiet():
+        reacs = [Reaction(list(r), list(p_), -1.0, -1.0, 1e-10, 0.0, 0.0, ReactionType.GAS_TWOBODY, i + 1) for i, (r, p_) in enumerate(oc.PRIMORDIAL)]
+        net = Network(reacs, cooling=cooling)
+        for b in ("dense", "sparse", "rosenbrock4"):
+            files = render(net, b, ["include/naunet_macros.h.j2", "python/pynaunet_model/constants.py.j2"])
+            from ..ctext.stmts import read_macros
+
+            mac = read_macros(files["include/naunet_macros.h"])
+            ca = dict(py_assignments(files["python/pynaunet_model/constants.py"]))
+            n += 1
+            c_thermal = mac.value("NEQUATIONS") - mac.value("NSPECIES")
+            tg = mac.value("IDX_TGAS") if "IDX_TGAS" in mac.text else None
+            if c_thermal not in (0, 1) or (c_thermal == 1) != bool(cooling) or (c_thermal == 1 and tg != mac.value("NSPECIES")) or bool(ca.get("HAS_THERMAL")) != bool(c_thermal) or ca.get("NSPEC") != mac.value("NSPECIES"):
+                viols.append(("C09:thermal-slot", f"{ncool} cooling process(es) [{b}]: C macros NEQUATIONS - NSPECIES = {c_thermal}, IDX_TGAS = {tg}; constants.py HAS_THERMAL = {ca.get('HAS_THERMAL')}, NSPEC = {ca.get('NSPEC')}", {"thermal_slot": ncool}))
+                break
+    return n, viols
+
+
 def run(ctx):
     import multiprocessing as mp
 
@@ -497,6 +528,9 @@ def run(ctx):
     uwork = [(i, s, ctx.tier, "ucl") for i, s in enumerate(ucl_subsets(ctx.tier))]
     nart = 0
     for n, viols in ctx.pmap(run_case, work + uwork, chunksize=8):
+        nart += n
+        ctx.absorb(viols)
+    for n, viols in ctx.pmap(thermal_slot_case, [0, 1, 2, 3]):
         nart += n
         ctx.absorb(viols)
     # CLI slice: gas-only sets (export of ice species needs binding energies) in fresh processes
@@ -525,6 +559,9 @@ def run(ctx):
 
 
 def replay(ctx, case):
+    if "thermal_slot" in case:
+        ctx.absorb(thermal_slot_case(case["thermal_slot"])[1])
+        return
     entries = []
     pool = UCL_POOL if case.get("ucl") else POOL
     for n, kw in case["species"]:
